@@ -243,13 +243,23 @@ class Check:
                 violations.append(v)
         # triage the violations: replay natively, then match known findings
         new, known_hit, not_repro = [], {}, []
-        seen = set()
+        seen, cand = set(), []
         for v in violations:
             sig = (v['label'], v['instance'])
-            if sig in seen and len(new) > 3:
+            if sig in seen:
                 continue
             seen.add(sig)
-            ok = replay(v) if replay else True
+            cand.append(v)
+        # at most 48 distinct (instance, assertion) counterexamples are replayed (16 at a time) and reported; a tree that fails in more places
+        # than that is reported by those 48
+        cand = cand[:48]
+        if replay and cand:
+            from concurrent.futures import ThreadPoolExecutor
+            with ThreadPoolExecutor(max_workers=min(16, len(cand))) as ex:
+                oks = list(ex.map(replay, cand))
+        else:
+            oks = [True] * len(cand)
+        for v, ok in zip(cand, oks):
             if not ok:
                 not_repro.append(v)
                 continue
